@@ -54,7 +54,15 @@ pub fn owners(st: &Step) -> Vec<&'static str> {
                 vec!["C06"]
             }
         }
-        Step::Cof { .. } | Step::Pred { .. } => vec!["C03"],
+        Step::Cof { .. } | Step::Pred { .. } | Step::Cofac { .. } => vec!["C03"],
+        Step::Rand { g, .. } => {
+            if *g == 0 {
+                vec!["C03"]
+            } else {
+                vec!["C06"]
+            }
+        }
+        Step::MBase { .. } => vec!["C07", "C04"],
         Step::Uni { .. } => vec!["C06"],
         Step::Batch { .. } | Step::Rerep { .. } | Step::FromEd { .. } => vec!["C06"],
         Step::Mul { .. }
@@ -131,6 +139,8 @@ fn one(w: &mut World, i: usize, st: &Step, c: &mut Counters) -> Result<Option<(u
             | Step::Batch { .. }
             | Step::Rerep { .. }
             | Step::FromEd { .. }
+            | Step::Rand { .. }
+            | Step::Cofac { .. }
     );
     let is_disk = matches!(st, Step::Store { .. } | Step::Load { .. } | Step::SimFmt { .. });
     let m = if is_group {
